@@ -77,6 +77,7 @@ class C07(Prop):
                 # float files: any fill value is representable, and baselines below zero are ordinary
                 c["mval"] = rng.choice((0, 3, -1.5, -0.25, 2.75, -300))
                 c["off"] = rng.choice((0, -2000))
+                c["nonfinite"] = rng.random() < 0.4
         if op == "chans":
             # any order: ascending, descending, and orders whose sorting permutation is not its own inverse
             c["chans"] = rng.sample(range(C), rng.randint(1, min(C, 6)))
@@ -152,6 +153,12 @@ class C07(Prop):
     def _data(self, case):
         rng = random.Random(case["dseed"])
         x = spfiles.rand_data(rng, case["N"], case["C"], case["nbits"]) + case.get("off", 0)
+        if case.get("nonfinite") and case["op"] == "mask":
+            # saturated / flagged float data: inf and NaN samples in the channels that are going to be masked
+            x = x.astype(np.float64)
+            cols = [c for c, m in enumerate(case["mask"]) if m]
+            for j, c in enumerate(cols):
+                x[(3 * j) % case["N"], c] = (np.inf, -np.inf, np.nan)[j % 3]
         if case.get("dconst"):
             # every group mean is an exact integer: the reduction to the output depth must not lose a level
             x[:] = x[0, 0]
@@ -283,6 +290,8 @@ class C07(Prop):
     def model_requests(self, case, obs):
         if obs.get("skip") or "err" in obs:
             return []
+        if case["op"] == "mask" and case.get("nonfinite"):
+            return []          # the exact model is over integers
         x = self._data(case)
         flat = " ".join(str(int(v)) for v in x.ravel())
         C, op = case["C"], case["op"]
@@ -290,7 +299,7 @@ class C07(Prop):
         zeros = " ".join(["0"] * C)
         if op in ("invert", "samps", "zerodm"):
             return [f"C07 {op} {head} 0 0 0 {zeros} {flat}"]
-        if op == "mask" and (case["mval"] != int(case["mval"]) or case.get("off")):
+        if op == "mask" and (case["mval"] != int(case["mval"]) or case.get("off") or case.get("nonfinite")):
             return []          # the exact model is over integers
         if op == "mask":
             return [f"C07 mask {head} {int(case['mval'])} 0 0 {' '.join('1' if m else '0' for m in case['mask'])} {flat}"]
